@@ -2,7 +2,8 @@
 //
 // Bounded exhaustive exploration of small documents (deviation lattice over a skeleton plus
 // dedicated product families for bookmarks, ids/links, metadata, border images, painted table
-// parts with and without cells, and svg clip paths / masks), each rendered through the
+// parts with and without cells, svg clip paths / masks, and lines of text whose runs use two fonts
+// (font fallback inside a line, fonts.go)), each rendered through the
 // real pipeline onto the recording backend. Oracle: the protocol monitor of the recorder
 // (pages, finite numbers, path before paint/clip, current point, fonts), link/anchor
 // consistency against the generator's model and the laid-out box tree, the reference outline
@@ -506,7 +507,7 @@ func (c *check) Init(tier string, seed int64) engine.Space {
 	c.fams = nil
 	head, tail := famLattice(thorough)
 	c.fams = append(c.fams, head...)
-	c.fams = append(c.fams, famSVGClip(thorough), famTables(thorough), famMeta())
+	c.fams = append(c.fams, famFonts(), famSVGClip(thorough), famTables(thorough), famMeta())
 	if thorough {
 		c.fams = append(c.fams, famLinks(4, 4), famBookmarks(5))
 	} else {
@@ -549,12 +550,13 @@ func (c *check) Init(tier string, seed int64) engine.Space {
 		slots[s.name] = map[string]int{"choices": len(s.choices), "core": nc}
 	}
 	c.bounds = map[string]any{
-		"families": sizes, "restricted_to_families(dev)": os.Getenv("VERIF_C14_FAMILIES"), "lattice_slots": slots,
+		"families": sizes, "restricted_to_families(dev)": os.Getenv("VERIF_C14_FAMILIES"), "restricted_to_picks(dev)": os.Getenv("VERIF_C14_PICK"), "lattice_slots": slots,
 		"table_family":             map[string]any{"parts": tblParts, "own_group": tblOwn, "other_groups": tblOthers, "paints": len(tblPaints), "models": len(tblModels)},
 		"svg_clip_family":          map[string]any{"contents": len(svgClipContents), "targets": len(svgClipTargets), "refs": svgClipRefs, "units": svgClipUnits, "hosts": svgHosts},
 		"deviation_level":          map[string]any{"quick": "<=2 over the full menus", "thorough": "<=2 over the full menus, 3 over the core menus"}[tier],
 		"bookmark_level_sequences": map[string]any{"alphabet": "{1,2,3,4}", "max_length": map[string]int{"quick": 4, "thorough": 5}[tier]},
-		"zoom":                     []float32{1, 0.5, 2}, "page": "100x140 px, <= 3 forced pages", "engine": "pango, Ahem",
+		"zoom":                     []float32{1, 0.5, 2}, "page": "100x140 px, <= 3 forced pages", "engine": "pango, Ahem (two-fonts documents: Ahem + Go Regular)",
+		"font_family":         map[string]any{"lines": len(fontTexts), "before": len(fontBefore), "containers": len(fontContainers), "pages": 2, "link_positions": 2, "zooms": 2},
 		"reference_self_test": map[bool]string{true: "ok", false: c.selfTest}[c.selfTest == ""],
 	}
 	budget := 150.0
@@ -563,14 +565,14 @@ func (c *check) Init(tier string, seed int64) engine.Space {
 	}
 	return engine.Space{
 		Units: c.total, Chunk: 48, Level: "model_checking",
-		Rule:   "one unit = one document: G0..G2 (G3 thorough) = every document with <= 2 (3: core menus) deviations from the skeleton over the listed slots; B = every bookmark-level sequence x page pattern x variant; L = every assignment of ids {none,a,b} to 1..4 elements x every placement of <= 2 forced page breaks x (at most one special box kind | no self link: with no id the document defines no anchor at all); T = table-part paint: painted part (table, caption, colgroup, col 1/2, thead, tbody, tfoot, tr, td) x content of its row group (2 cells, 1 cell, empty cells, empty row, empty row + row, no row) x other row groups (none, full, short) x paint (backgrounds, borders, outlines) x border model (separate, collapse, empty-cells:hide) (x zoom, thorough); S = svg clip-path/mask: content of the clipPath/mask (shapes, degenerate shapes, empty containers, hidden children, childless) x clipped element x attribute x units x host (inline, img, background) (x zoom, thorough); M = full product of the title/keywords/other-meta menus; I = border-image group (source x slice x repeat x width x outset x border widths x box x zoom): every document with <= 4 deviations inside the group (thorough: the full product). A case is non-trivial when the render completed and the document produced at least one anchor, link, bookmark or metadata value that the oracle compared.",
+		Rule:   "one unit = one document: G0..G2 (G3 thorough) = every document with <= 2 (3: core menus) deviations from the skeleton over the listed slots; B = every bookmark-level sequence x page pattern x variant; L = every assignment of ids {none,a,b} to 1..4 elements x every placement of <= 2 forced page breaks x (at most one special box kind | no self link: with no id the document defines no anchor at all); T = table-part paint: painted part (table, caption, colgroup, col 1/2, thead, tbody, tfoot, tr, td) x content of its row group (2 cells, 1 cell, empty cells, empty row, empty row + row, no row) x other row groups (none, full, short) x paint (backgrounds, borders, outlines) x border model (separate, collapse, empty-cells:hide) (x zoom, thorough); S = svg clip-path/mask: content of the clipPath/mask (shapes, degenerate shapes, empty containers, hidden children, childless) x clipped element x attribute x units x host (inline, img, background) (x zoom, thorough); F = font registration: text of a line (characters of the first family, of a fallback font, both in both orders, three runs) x line before it (none, first font, fallback font, mixed) x container (plain, opacity group, transform, clip) x page (first, second) x link paragraph (Ahem text) before or after x zoom, rendered with two fonts of different coverage (Ahem, Go Regular); M = full product of the title/keywords/other-meta menus; I = border-image group (source x slice x repeat x width x outset x border widths x box x zoom): every document with <= 4 deviations inside the group (thorough: the full product). A case is non-trivial when the render completed and the document produced at least one anchor, link, bookmark or metadata value that the oracle compared.",
 		Bounds: c.bounds,
 		Assumptions: []string{
 			"Paint(0) (the 'end path without painting' operation) on an empty path is not counted as painting",
 			"keywords are compared modulo empty tokens (HTML5 and Infra 'split on commas' differ on them)",
 			"the order of anchors inside one page of CreateAnchors is not compared (map order, property C15)",
 			"the page of an element is read from the laid-out box tree (layout itself is C10-C12's concern)",
-			"only the Ahem font and the pango engine are used; attachments only through data: URLs",
+			"only the pango engine is used; fonts: Ahem alone, except the documents tagged two-fonts (family F, slot paint-text), rendered with Ahem + Go Regular as fallback font; attachments only through data: URLs",
 		},
 		BudgetS: budget, CaseCPUs: 10, MinOutcomes: 50,
 	}
@@ -594,6 +596,18 @@ func (c *check) Describe(u int64) any {
 
 func (c *check) Run(u int64, ctx *engine.Ctx) {
 	s, dev, fam := c.caseAt(u)
+	// development aid: VERIF_C14_PICK=text: skips the documents without a pick beginning with that word
+	// (reported in the bounds; the run then says nothing about the skipped units)
+	if only := os.Getenv("VERIF_C14_PICK"); only != "" {
+		keep := false
+		for _, p := range s.picks {
+			keep = keep || strings.HasPrefix(p, only)
+		}
+		if !keep {
+			ctx.Count("skipped(dev):VERIF_C14_PICK", 1)
+			return
+		}
+	}
 	ctx.Trans(int64(dev))
 	ctx.Count("family:"+fam, 1)
 	runCase(ctx, s)
